@@ -82,12 +82,19 @@ func (s *Server) Initialize(ctx context.Context, params *protocol.InitializePara
 		settings := parseSettingsFromRaw(s.getSettings(), params.InitializationOptions)
 		s.setSettings(settings)
 	}
+	// A URI escapes blanks and non-ASCII letters; decode it the way document URIs are.
+	rootPath := func(raw string) string {
+		if path := uriToPath(protocol.DocumentURI(raw)); path != "" {
+			return path
+		}
+		return strings.TrimPrefix(raw, "file://")
+	}
 	if len(params.WorkspaceFolders) > 0 {
-		s.rootURI = strings.TrimPrefix(params.WorkspaceFolders[0].URI, "file://")
+		s.rootURI = rootPath(params.WorkspaceFolders[0].URI)
 	} else {
 		rootURI := params.RootURI //nolint:staticcheck // keep for backward compatibility
 		if rootURI != "" {
-			s.rootURI = strings.TrimPrefix(string(rootURI), "file://")
+			s.rootURI = rootPath(string(rootURI))
 		}
 	}
 
